@@ -490,19 +490,25 @@ pub struct Streams {
 impl Streams {
     pub fn new() -> Self {
         let mut scan = Stream::new("scan", unit::REQ, "chk_scan", &format!("{} * {} * list (N * N * list (option Z)) * sexpr", INFO_TY, IXS_TY), "outcome (list N)");
-        scan.shard = 60;
+        scan.shard = 40;
         let mut class = Stream::new("class", unit::REQ, "chk_class", &format!("{} * {} * list (N * N * list (option Z)) * sexpr", INFO_TY, IXS_TY), "bool * bool * bool");
         class.shard = 80;
         let mut translate = Stream::new("translate_e2e", unit::REQ, "chk_translate", &format!("{} * sexpr", INFO_TY), "outcome (option sidx * option sexpr)");
-        translate.shard = 150;
+        translate.shard = 100;
         Streams { scan, class, translate }
     }
 }
 
 /// One predicate on one table state: oracle + model streams.  `fixed` marks corpus cases.
 pub async fn check_pred(t: &Table, sql: &str, rows: &[(u64, u64, Row)], info: &Info, ixs: &[Ix], names: &[String], st: &mut Streams, sink: &mut Sink, tag: &str) {
-    let with = t.ids(sql, true).await;
+    let mut with = t.ids(sql, true).await;
     let without = t.ids(sql, false).await;
+    // PLANTED (sanity test, temporary): the index path loses its first row now and then
+    if let Ok(a) = &mut with {
+        if tag == "e2e" && a.len() > 1 && sql.len() % 5 == 0 {
+            a.remove(0);
+        }
+    }
     let case = |extra: Value| -> Value {
         json!({"arm": tag, "filter": sql, "history": t.hist, "columns": t.cols.iter().map(|c| format!("{} {:?}{} {:?}", c.name, c.ty, if c.nullable { " null" } else { "" }, c.indices)).collect::<Vec<_>>(), "extra": extra})
     };
